@@ -71,7 +71,7 @@ THEOREMS = {
     "nll": "C10_nll_formula, C10_nll_formula_born, C10_nll_born_rbm_userDict",
     "kind": "C10_kind",
 }
-RULE = ("case = (op in {fidelity, KL, NLL}, state kind in {pos, cplx, dens}, n<=3 (4 thorough), h, a, parameters = scale*N(0,1) with all "
+RULE = ("[extension round 2: op alias = fidelity / KL through ~30 call forms mixing positional, target=, deprecated target_psi= / target_rho= and ignored keywords, against QV.CallForm.metricBind] case = (op in {fidelity, KL, NLL}, state kind in {pos, cplx, dens}, n<=3 (4 thorough), h, a, parameters = scale*N(0,1) with all "
         "biases non-zero, target class in {random complex normalised, own state, e^{i alpha} x own/random, real, basis state, GHZ, W, product state "
         "(Z/X/Y eigenstates per site), random/pure/low-rank/basis-state/GHZ/own density matrix}, bases in {None, list over {X,Y,Z}^n, dict target vs "
         "single target}, CALL FORM in {positional, target=, deprecated target_psi=/target_rho=, extra ignored kwargs, space= (keyword / third positional) "
